@@ -125,7 +125,8 @@ def run(eng: Engine, ck: Check):
                 continue
             c = eng.cfg(m)
             rets = [n for n in c.nodes if n.kind == 'stmt' and isinstance(n.ast, ast.Return) and n in c.reachable_nodes()]
-            implicit = [p for p, lab in c.exit_return.pred if not isinstance(p.ast, ast.Return)]
+            implicit = c.find_path([c.entry], lambda n: n.kind == 'exit_return', avoid=lambda n: isinstance(n.ast, ast.Return))
+            implicit = [implicit] if implicit else []
             ok = rets and not implicit and all(const(r.ast.value) is True for r in rets)
             ck.ob('R-C03-RETURNS', m, m.node, f'{ci.name}.{name} returns True on every normal path (it performed the transition)',
                   ok, f'returns {[unparse(r.ast.value) for r in rets]}, implicit None returns: {len(implicit)}',
